@@ -3,7 +3,7 @@
 From Coq Require Import List NArith ZArith Bool.
 From Common Require Import Lock.
 From Conc Require Import Lin LockedObject.
-From C35 Require Import Model Gen Checker Proofs ProofsT ProofsPtr ProofsConc ProofsTop.
+From C35 Require Import Model Gen Checker Proofs ProofsT ProofsCap ProofsPtr ProofsConc ProofsTop.
 Import ListNotations.
 Local Open Scope N_scope.
 
@@ -29,6 +29,33 @@ Proof.
   rewrite <- abs_new. apply m_run_refines. apply minv_new.
 Qed.
 Print Assumptions C35_seq_refines.
+
+(* ---- "capacity-bounded map": after any sequence of operations the cache holds at most its
+   (normalised) capacity of entries and at most one entry per key.  Together with
+   C35_seq_refines (Dump shows exactly these entries in the implementation models) this bounds
+   the real list and map. *)
+Theorem C35_capacity_bounded : forall (c : N) (ops : list op),
+  N.of_nat (length (r_items (r_exec (r_new c) ops))) <= norm_cap c /\
+  NoDup (map fst (r_items (r_exec (r_new c) ops))).
+Proof. exact capacity_bounded. Qed.
+Print Assumptions C35_capacity_bounded.
+
+(* ---- "least recently used": an entry that has just been put is still there, with its value,
+   after any operations on other keys that touch fewer distinct keys than the capacity — however
+   many operations these are, and whatever happened before.  (FIFO or random eviction violate
+   this; it is the guarantee the de-duplication and rate-limiting users rely on.) *)
+Theorem C35_retention : forall (c : N) (pre : list op) (k v : N) (mid : list op),
+  Forall (fun o => op_key o <> Some k) mid ->
+  N.of_nat (distinct (keys_of mid)) < norm_cap c ->
+  snd (r_step (r_exec (r_new c) (pre ++ Put k v :: mid)) (Get k)) = RVal v.
+Proof. exact retention. Qed.
+Print Assumptions C35_retention.
+
+(* the bound of C35_retention is tight: capacity-many distinct other keys evict the entry *)
+Example C35_retention_tight :
+  snd (r_step (r_exec (r_new 2) ([Put 9 1] ++ Put 1 7 :: [Put 2 0; Get 2; Put 2 5])) (Get 1)) = RVal 7 /\
+  snd (r_step (r_exec (r_new 2) ([Put 9 1] ++ Put 1 7 :: [Put 2 0; Put 3 0])) (Get 1)) = RVal 0.
+Proof. vm_compute. split; reflexivity. Qed.
 
 (* the recency list is "least recently used" said with time stamps: every hit and every put
    stamps the entry with the current time, a put of a new key into a full cache evicts the entry
